@@ -190,6 +190,9 @@ def _round_significant(value: float, sig_digits: int) -> float:
 
     if value == 0.0:
         return 0.0
+    if not math.isfinite(value):
+        # inf / nan (e.g. the scalar exp(1000)) have no significant digits to round
+        return value
     d = math.ceil(math.log10(abs(value)))
     return round(value, sig_digits - d)
 
